@@ -145,6 +145,10 @@ pub fn c05() -> Result<u64, String> {
         for &o2 in &vals_off { for &l2 in &[1u32, 128] { cases.push(vec![E { id: 5, off: o, len: l, run: 2 }, E { id: 7, off: o2, len: l2, run: 0 }]);
             cases.push(vec![E { id: 5, off: o, len: l, run: 2 }, E { id: 9, off: o.saturating_add(l as u64).min(1 << 62), len: l2, run: u32::MAX }]); } } } }
     for k in 0..400 { let len = [0, 1, 2, 3, 5, 17, 100, 4097][k % 8]; cases.push(gen_dir(&mut r, len, k % 2 == 0)); }
+    // ids at the very end of the valid tile-id space (zoom 31) and the start of each zoom block
+    { let last = util::tile_id(31, (1 << 31) - 1, 0).max(util::tile_id(31, 0, (1 << 31) - 1)).max(6148914691236517204);
+      cases.push(vec![E { id: util::tile_id(31, 0, 0), off: 0, len: 3, run: 2 }, E { id: util::tile_id(31, 5, 5), off: 3, len: 1, run: 1 }, E { id: last, off: 0, len: 3, run: 1 }]);
+      cases.push((0..32u8).map(|z| E { id: util::tile_id(z, 0, 0), off: z as u64 * 10, len: 10, run: 1 }).collect()); }
     // highly regular directories: consecutive ids, contiguous equal-size tiles (compress to far fewer bytes than entries)
     for &cnt in &[50usize, 200, 1000, 5000, 20000] { for &l in &[1u32, 100, 4096] {
         cases.push((0..cnt as u64).map(|i| E { id: 3 + i * 2, off: i * l as u64, len: l, run: 1 }).collect()); } }
@@ -423,14 +427,21 @@ pub fn c01_c02_c18() -> Result<u64, String> {
     for (tiles, c, p) in cases { n += 1;
         ctx(format!("writing/reading an archive of {} tiles, {c:?}, start position {p}", tiles.len()));
         let mut meta = serde_json::Map::new(); meta.insert("k".into(), serde_json::json!({"n": [1, 2, {"x": null}]}));
-        let mut pm = build(&tiles, c, &meta);
-        pm.min_zoom = 1; pm.max_zoom = 17; pm.center_zoom = 9; pm.tile_compression = Compression::Brotli; pm.tile_type = TileType::WebP;
-        pm.min_longitude = -122.41941558; pm.min_latitude = 139.6917064; pm.max_longitude = 21e-7; pm.max_latitude = -0.00000015; pm.center_longitude = 179.99999995; pm.center_latitude = -85.05112878;
+        let mk = || { let mut pm = build(&tiles, c, &meta);
+            pm.min_zoom = 1; pm.max_zoom = 17; pm.center_zoom = 9; pm.tile_compression = Compression::Brotli; pm.tile_type = TileType::WebP;
+            pm.min_longitude = -122.41941558; pm.min_latitude = 139.6917064; pm.max_longitude = 21e-7; pm.max_latitude = -0.00000015; pm.center_longitude = 179.99999995; pm.center_latitude = -85.05112878;
+            pm };
+        let pm = mk();
         let desc = format!("{} tiles, {c:?}, start position {p}", tiles.len());
         let (bytes, pos) = write_at(pm, p).map_err(|e| format!("write failed ({desc}): {e}"))?;
         if bytes[..p as usize].iter().any(|&x| x != 0xEE) { return Err(format!("bytes before the start position were modified ({desc})")); }
         if pos as usize != bytes.len() { return Err(format!("stream left at {pos}, archive ends at {} ({desc})", bytes.len())); }
         let arch = &bytes[p as usize..];
+        if tiles.len() <= 6000 && n % 3 == 0 {   // the same archive at another start position has the same bytes (offsets are relative to the start)
+            for p2 in [16_000u64, 70_001] { if p2 == p { continue; }
+                let pm2 = mk();
+                let (b2, _) = write_at(pm2, p2).map_err(|e| format!("write failed at start position {p2} ({desc}): {e}"))?;
+                if &b2[p2 as usize..] != arch { return Err(format!("the same archive written at start position {p2} has other bytes than at start position {p} ({desc})")); } } }
         let parsed = parse_archive(arch).map_err(|e| format!("independent reader rejects the written archive ({desc}): {e}"))?;
         for (k, v) in &tiles { if parsed.bytes_of(arch, *k) != Some(&v[..]) { return Err(format!("spec lookup of tile {k} returns other bytes than were added ({desc})")); } }
         if parsed.tiles.len() != tiles.len() { return Err(format!("directories address {} tiles, {} were added ({desc})", parsed.tiles.len(), tiles.len())); }
@@ -864,6 +875,17 @@ pub fn c12() -> Result<u64, String> {
             let a2 = block_on(PMTiles::from_async_reader(futures::io::Cursor::new(ab))).is_ok();
             if s2 != a2 { return Err(format!("archive with header byte {pos} set to {v}: sync open {}, async open {}", if s2 { "succeeds" } else { "fails" }, if a2 { "succeeds" } else { "fails" })); }
         } }
+    }
+    // a GZip directory / metadata section consisting of TWO gzip members (pigz / `cat a.gz b.gz` style): sync and async readers agree on accept/reject and content
+    {
+        let es: Vec<E> = (0..6u64).map(|i| E { id: 2 + i * 3, off: i * 5, len: 5, run: 1 }).collect();
+        let plain = dir_enc(&es);
+        for cut in [1usize, plain.len() / 2, plain.len() - 1] { n += 1;
+            let two = [compress(2, &plain[..cut]), compress(2, &plain[cut..])].concat();
+            let s = Directory::from_bytes(&two, Compression::GZip).map(|d| from_entries(&d)).map_err(|e| e.to_string());
+            let a = block_on(Directory::from_async_reader(&mut futures::io::Cursor::new(two.clone()), two.len() as u64, Compression::GZip)).map(|d| from_entries(&d)).map_err(|e| e.to_string());
+            if s.is_ok() != a.is_ok() || (s.is_ok() && s != a) { return Err(format!("a GZip directory made of two gzip members (split at {cut}): sync reader gives {:?}, async reader gives {:?}", s.map(|v| v.len()), a.map(|v| v.len()))); }
+        }
     }
     // foreign archives with nested leaf directories (tile leaves down to depth 3): sync and async readers agree
     for round in 0..24 { n += 1;
